@@ -48,8 +48,9 @@ def d1(ck: Check) -> None:
     fm = ck.prog.fm(CTRL, "find_drivers")
     f = fm.f
     motif_p = f.params()[1]
+    res = next((r.value.id for r in own_walk(f.node) if isinstance(r, ast.Return) and isinstance(r.value, ast.Name)), None)
     apps = [n for n in own_walk(f.node) if isinstance(n, ast.Call) and isinstance(n.func, ast.Attribute) and n.func.attr == "append"
-            and text(n.func.value) == "drivers"]
+            and text(n.func.value) == res]
     if not apps:
         raise AnalysisError("anchor vanished: drivers.append in find_drivers")
     for ap in apps:
